@@ -24,7 +24,24 @@ prop(
         "A (version, response serial/reset/fallback-reset, window class, how the connection started, downgrade?, update-during-response?, "
         "after serial wrap?, diff offered?), B (version, response, diff style, announce/withdraw pattern per payload type, data changed?), "
         "C (version, response, the last two op kinds before the step), D (version, response, pipe size class per direction, items in the response); K (payload kind, neighbour relations of the triple, number of implicit-max-length forms) for the key laws. A step that transferred an empty diff is trivial and registers nothing. "
-        "Steps ending in Err assert nothing and are counted as aborted_steps."
+        "Steps ending in Err assert nothing and are counted as aborted_steps. "
+        "LARGE DATA SETS (native and ASan stages; c06_big.rs): besides the random histories, a matrix of histories walked by index (quick 150, thorough 720, "
+        "ASan 45; every index is run by exactly one shard) - size class x protocol version 0/1/2 (negotiated directly or by downgrade through the emulated older cache) "
+        "x shape. A full data set is aimed at about 12 KiB / 40 KiB / 160 KiB / 600 KiB / 1.8 MiB (thorough also 4.6 MiB) of payload PDUs counted under the "
+        "negotiated version (what that version does not carry is at the source as well and must be left out), i.e. 600 ... 230 000 items, so that reset responses pass "
+        "4, 8, 16, 64, 256 KiB, 1 MiB and 65 536 items by a margin; updates churn 20-100 % of the set (withdrawals + announcements + provider changes), grow it, shrink it, "
+        "clear and refill it or touch a few items, so that serial responses pass the same marks. Shapes: small PDUs only (IPv4/IPv6 origins, 91-octet router keys, ASPAs "
+        "with 0-8 providers; for version 0 also IPv4 only), small PDUs with a few very large ones in between, very large PDUs only (ASPAs with 300-16380 providers, "
+        "router keys with 1 000 - 1 100 000 octets of key info, lengths around powers of two and PDU sizes of 4/16/64/128/256 KiB and 1 MiB); ASPA records that go from a "
+        "short (or no) provider list to a very long one within one diff (withdraw-then-announce and concatenated diff styles: a short and a long PDU of the same customer, "
+        "whose order matters). Pipes of 1 octet ... 3 MiB per direction (shorter and longer than a PDU, than any plausible buffer, than the whole response), diff window "
+        "never / last k / unbounded, reconnects with every kind of initial state, new sessions (fallback to a large reset), serial jumps, updates during a suspended "
+        "large response. Judged by the same replay oracle (the three reference targets are left out there: the ==-only one is quadratic). Additional signature classes "
+        "of a completed large step: L (version, response, octets-of-payload-PDUs class, item-count class, longest-PDU class, shape) and M (version, reset/serial, octets "
+        "class, pipe size class per direction). Observation counters large_v<version>_<reset|serial>_responses_over_<4KiB|8KiB|16KiB|64KiB|256KiB|1MiB>, "
+        "..._with_65536_items_or_more, large_responses_with_a_single_pdu_over_<size>, large_responses_with_a_pdu_longer_than_a_pipe, max:payload_octets_in_one_response, "
+        "max:longest_payload_pdu say which regions a run reached; a violation found there names the differing items literally with their position (payload PDU number, "
+        "octets of payload PDUs before it) in the response as the source presented it."
     ),
     assumptions=[
         "a failed step ends the connection (as Client::run does); the next step uses a new connection",
@@ -35,19 +52,24 @@ prop(
         "deterministic given seed and shard: no tokio::select!, single-threaded runtime",
         "item identity is the one of the wire: an origin without explicit max length and one with max length = prefix length are the same item (the PDU carries the resolved value only); "
         "ASPA provider lists compare in transmitted order; a target keeps one ASPA record per customer",
+        "large data sets: generated values are within what the library's own constructors accept (at most 16380 providers per ASPA; router key info up to 1.1 MB, far "
+        "below the 4 GiB a PDU length can express); the octets-per-PDU figures used to size the sets and to locate a lost item (20 / 32 / 32 + key info / 12 + 4 per "
+        "provider) are those of RFC 8210 and 8210bis and are never part of a verdict; if fewer than half of the steps over large data complete, a note says so",
     ],
     level_text=(
         "Runtime oracle over executions of the real client/server pair: the harness target records every (action, payload) and the timing, "
         "the checker replays the log on the client's previous data in a model written in plain integers (and in three reference collections keyed by the library's own Eq / Ord / Hash, read back into that model) and compares with the immutable "
         "snapshot the harness source recorded for the (session, serial) in the End of Data PDU tapped at the byte boundary, restricted to the "
         "payload types of the version in that PDU. Exploration of random update/query histories with all protocol versions, downgrade through "
-        "an emulated older cache, diff availability classes and updates racing a suspended response; Miri and ASan repeat a reduced workload "
+        "an emulated older cache, diff availability classes and updates racing a suspended response, plus a matrix of histories over large data sets "
+        "(responses of 4 KiB to several MiB and of a few hundred to some hundred thousand items for every version, single PDUs of up to 1.1 MB, pipes of 1 octet to 3 MiB) for every path whose behaviour "
+        "depends on the size of a response; Miri and ASan repeat a reduced workload "
         "for the packed PDU structs and the unchecked slice in the error path."
     ),
     level_note=(
         "Sampled histories only; the oracle trusts the harness' own source/diff implementation (self-checked: every diff offered leads from the "
         "old to the current snapshot) and the byte tap. Aborted steps (e.g. a Serial Notify between query and response) assert nothing."
     ),
-    technique="runtime oracle (replayed target log, in an integer model and in Eq/Ord/Hash-keyed reference targets, vs. source snapshot) over random client/server histories in virtual time + Eq/Ord/Hash coherence laws on neighbour triples + Miri/ASan",
+    technique="runtime oracle (replayed target log, in an integer model and in Eq/Ord/Hash-keyed reference targets, vs. source snapshot) over random client/server histories in virtual time and over a size-class x version x shape matrix of histories with large data sets, large diffs and single very large PDUs + Eq/Ord/Hash coherence laws on neighbour triples + Miri/ASan",
     design_ref="DESIGN.md §4 C06",
 )
